@@ -120,9 +120,22 @@ def swSorted (s : SwLine) : Bool := strictlyIncreasing (s.ents.map (·.2.2))
 
 def entLt (a b : Int × Nat) : Bool := a.1 < b.1 || (a.1 == b.1 && a.2 < b.2)
 
+/-- the compressed runtime table is consistent: the slots of functions defined here (what `find_func_entry` returns for
+    a runtime index without NAME_INHERITED) are pairwise distinct, exist, and hold a function number of this program -/
+def runtimeTableOk (d : Dump) : Bool :=
+  let ct := ((d.kind "ct").head?).getD []
+  let nSlots := (csv ((((d.kind "ro").head?).getD []).headD "-")).length
+  let slotsF := (csv ((((d.kind "ro").head?).getD []).headD "-")).map (fun s => ((s.splitOn ":").getD 2 "").toNat?.getD 0)
+  let flags := csvNat ((((d.kind "fl").head?).getD []).headD "-")
+  let nfd := d.cfs.length
+  let defSlots := (List.range flags.length).filterMap (fun ri =>
+    if (flags.getD ri 0) % 2 == 1 then none else slotOf ct ri)
+  defSlots.all (fun s => s < nSlots && slotsF.getD s 99999 < nfd) && defSlots.eraseDups.length == defSlots.length
+
 /-- checks on any dump (fresh or reloaded): lookup tables in address order -/
 def wellFormed (tag : String) (d : Dump) : List String :=
   (if tableSorted d then [] else [s!"function-table-not-sorted {tag}"]) ++
+  (if runtimeTableOk d then [] else [s!"runtime-table-malformed {tag}"]) ++
   ((d.kind "sw").filterMap (fun l =>
     match parseSw l with
     | some s => if swSorted s then none else some s!"switch-table-not-sorted {tag} at={s.head}"
@@ -195,6 +208,8 @@ structure JState where
   top : String := ""
   bad : List String := []
   pendingUnit : List (List String) := []       -- unit commands whose output has not been seen yet
+  foreign : List String := []                  -- binaries of another driver build / configuration / program name
+  damaged : List String := []                  -- programs whose saved binary was damaged since it was written
   expects : List (String × String) := []       -- call ↦ the value the source text prescribes (string switch cases)
   deriving Inhabited
 
@@ -379,14 +394,22 @@ def traceLine (s : JState) (unitSeen : Nat) (line : String) : JState × Nat :=
   match toks line with
   | ["begin", _] => ({ s with inBlock := true, used := [], cur := [], curR := [] }, unitSeen)
   | ["end", _] => (endBlock s, unitSeen)
+  | ["corrupted", name] => ({ s with damaged := name :: s.damaged }, unitSeen)
+  | ["foreign", name, _] => ({ s with foreign := name :: s.foreign }, unitSeen)
+  | ["copybin", _, dst] => ({ s with foreign := dst :: s.foreign }, unitSeen)
   | ["lb", name, "use"] =>
     let s := (staleReasons s name).foldl JState.flag s
+    let s := if s.damaged.contains name then s.flag s!"damaged-binary-used {name}" else s
+    let s := if s.foreign.contains name then s.flag s!"foreign-binary-used {name}" else s
     ({ s with used := name :: s.used }, unitSeen)
   | ["lb", _, "stale"] => (s, unitSeen)
   | ["lb", _, "needs", _] => (s, unitSeen)
   | "sv" :: name :: t :: _ =>
     match t.toNat? with
-    | some t => ({ s with binT := setKey s.binT name t }, unitSeen)
+    | some t =>
+      let dm := s.damaged.filter (fun x => x != name)
+      let fg := s.foreign.filter (fun x => x != name)
+      ({ s with binT := setKey s.binT name t, damaged := dm, foreign := fg }, unitSeen)
     | none => (s.flag s!"save-failed {name}", unitSeen)
   | "restarted" :: _ => ({ s with simulTouchedSinceRestart := false }, unitSeen)
   | "D" :: tag :: rest =>
@@ -449,6 +472,14 @@ def judge (caseLines : List String) (trace : List String) : List String :=
           let s := (blk ++ after.take 1).foldl (fun s l => (traceLine s 0 l).1) s
           let s := if after.isEmpty then s.flag s!"reload-did-not-finish {top}" else s
           go rest (after.drop 1) s fuel
+        | ["badload", name] =>
+          -- the error report of the master and the harness line
+          match tr with
+          | l :: e :: b :: tr' =>
+            if l == s!"lb {name}.c stale" && e.startsWith "err *Error in loading object" && b == s!"badload {name} failed"
+            then go rest tr' s fuel
+            else go rest tr' (s.flag s!"badload-unexpected {b}") fuel
+          | _ => go rest [] (s.flag "badload-without-output") fuel
         | "restart" :: _ =>
           match tr with
           | l :: tr' => go rest tr' (traceLine s 0 l).1 fuel
